@@ -45,6 +45,11 @@ fn main() {
                     continue;
                 }
                 let s = sim.as_mut().expect("Init first");
+                if ev == "Quiesce" {
+                    // the recorded schedule settled the tree it was recorded on; on the current tree more (or
+                    // other) messages may be in flight: the quiescence claim is only made after fresh rounds
+                    tr.rounds(s, 3);
+                }
                 if !tr.step(s, ev, d["args"].clone()) {
                     not_enabled += 1;
                     tr.write(s, "NotEnabled", &json!({"ev": ev, "args": d["args"]}));
